@@ -266,9 +266,19 @@ func setKey(item reflect.Value, i int, n int) {
 	item.Field(i).Set(p)
 }
 
+// keyN maps identifier id of the domain to the value of key field j. For multi-key items no single
+// key field is unique over the domain, only the tuple is ((0,0,0),(0,1,1),(1,0,1),(1,1,0),(2,0,0)...),
+// and ascending ids give lexicographically ascending tuples.
 func (li *ListInfo) keyN(j, id int) int {
-	if j > 0 {
-		return id % 2
+	if len(li.Keys) > 1 {
+		switch j {
+		case 0:
+			return id / 2
+		case 1:
+			return id % 2
+		default:
+			return (id/2 + id) % 2
+		}
 	}
 	return id
 }
